@@ -62,7 +62,7 @@ fn systematic(i: u64, ev: &mut Ev) -> Outcome {
 }
 
 fn run(r: &Run) {
-    r.prop("pwb_cases", r.tier.pick(200_000, 5_000_000), gen::pwb_case, case_oracle);
+    r.prop("pwb_cases", r.tier.pick(200_000, 3_000_000), gen::pwb_case, case_oracle);
     r.enumerate("pwb_systematic", SYSTEMATIC, systematic);
 }
 
